@@ -4,6 +4,7 @@ import (
 	"context"
 	"fmt"
 	"path/filepath"
+	"sort"
 	"strings"
 
 	"github.com/apache/skywalking-banyandb/api/common"
@@ -131,7 +132,7 @@ func BootCluster(repo *simmeta.Repo, dir string, nData int, eng Engines, dataFla
 		}
 		units = append(units, q)
 		all := append([]string{"--measure-root-path=" + ddir, "--stream-root-path=" + ddir, "--trace-root-path=" + ddir}, dataFlags...)
-		if err = applyFlags(units, all, dataFlags); err != nil {
+		if err = applyFlags(units, all, nil); err != nil { // flags a role does not define are ignored (the roles differ in their knobs)
 			return nil, err
 		}
 		if err = prerun(ctx, units); err != nil {
@@ -187,7 +188,21 @@ func BootCluster(repo *simmeta.Repo, dir string, nData int, eng Engines, dataFla
 	}
 	lunits = append(lunits, dq)
 	all := append([]string{"--measure-root-path=" + ldir, "--stream-root-path=" + ldir, "--trace-root-path=" + ldir}, liaisonFlags...)
-	if err = applyFlags(lunits, all, liaisonFlags); err != nil {
+	// a flag that also configures the data nodes need not exist on the liaison
+	var lmust []string
+	for _, f := range liaisonFlags {
+		shared := false
+		for _, d := range dataFlags {
+			if d == f {
+				shared = true
+			}
+		}
+		if !shared {
+			lmust = append(lmust, f)
+		}
+	}
+	_ = lmust
+	if err = applyFlags(lunits, all, nil); err != nil {
 		return nil, err
 	}
 	if err = prerun(ctx, lunits); err != nil {
@@ -245,4 +260,23 @@ func (c *Cluster) WriteStream(reqs []*streamv1.WriteRequest) ([]*streamv1.WriteR
 // QueryStream runs a stream query through the liaison front-end (distributed plan).
 func (c *Cluster) QueryStream(r *streamv1.QueryRequest) (*streamv1.QueryResponse, error) {
 	return c.FE.StreamQuery(c.Ctx, r)
+}
+
+// ShardsOnNodes OBSERVES, per data node, which shards of a group hold a directory on that node's disk
+// (<root>/<engine>/data/<group>/seg-*/shard-N): the placement the cluster actually produced, sorted.
+func (c *Cluster) ShardsOnNodes(engine, group string) [][]int {
+	out := make([][]int, len(c.DataDirs))
+	for i, d := range c.DataDirs {
+		m, _ := filepath.Glob(filepath.Join(d, engine, "data", group, "seg-*", "shard-*"))
+		seen := map[int]bool{}
+		for _, p := range m {
+			var id int
+			if _, err := fmt.Sscanf(filepath.Base(p), "shard-%d", &id); err == nil && !seen[id] {
+				seen[id] = true
+				out[i] = append(out[i], id)
+			}
+		}
+		sort.Ints(out[i])
+	}
+	return out
 }
